@@ -20,6 +20,11 @@ Section FnOps.
     {| sf_call := fun v => hl_cost v pl ph xl xh; sf_deriv := fun v => hl_deriv v pl ph xl xh; sf_hess := fun v => hl_hess v pl ph xl xh |}.
   Definition null_sfobj : sfobj := sfobj_hl (n0, n0, n0, n0).
 
+  (* functions[k] for k beyond the list: IndexError in Python; the theorems only use indices inside the list *)
+  Definition null_fobj : fobj := {| f_call := fun _ => n0; f_deriv := fun x => zeros (length x); f_hess := fun x => mconst (length x) (length x) n0 |}.
+  (* enumerate(ranges) *)
+  Definition enum_ranges (ranges : list (nat * nat)) : list (nat * (nat * nat)) := combine (seq 0 (length ranges)) ranges.
+
   Definition poly_pad (len : nat) (c : list A) : list A := repeat n0 (len - length c) ++ c.
   Definition poly_deriv_padded (c : list A) : list A := poly_pad (length c) (pderiv c).
   Definition poly_deriv2_padded (c : list A) : list A := poly_pad (length c) (pderiv (pderiv c)).
